@@ -25,11 +25,15 @@ const int NKEYS = 9;
 const size_t MAXLIVE[] = {1000000, 2, 3, 4, 6, 8, 10, 12};
 
 int g_priv_token, g_cmp_kind, g_mod;
+// keys are opaque pointers to the map: a NULL key pointer is a key like any other (an integer 0 stored in the pointer).
+// In "null key" cases (header byte 2, bit 7) the value 0 is represented by the NULL pointer.
+bool g_null_key;
+static inline int kval(const void *k) { return k ? ((const struct KeyCell *)k)->value : 0; }
 int key_class(int v) { return g_cmp_kind == 2 ? v % g_mod : v; }
 int cmp_cb(const void *a, const void *b, void *p)
 {
     CHECK_NOTHROW(p == &g_priv_token, "C08.cmp.priv", "compare function received a different priv pointer");
-    int x = key_class(((const KeyCell *)a)->value), y = key_class(((const KeyCell *)b)->value);
+    int x = key_class(kval(a)), y = key_class(kval(b));
     // any negative / zero / positive int is a valid answer: differences, +-1, and values that do not fit a short or a char
     if (g_cmp_kind == 3) return x < y ? -2000000000 : x > y ? 2000000000 : 0;
     if (g_cmp_kind == 4) return (x > y) - (x < y);
@@ -51,12 +55,18 @@ struct Map {
         tag = t;
         model.clear();
         next_id = 0;
+        memset(&m, 0xA5, sizeof m);      // init must set every field itself
         LIB(cstl_map_init(&m, cmp_cb, &g_priv_token));
     }
-    KeyCell *mkkey(int v) { KeyCell *k = (KeyCell *)malloc(sizeof *k); k->value = v; k->id = next_id++; cells.insert(k); return k; }
+    KeyCell *mkkey(int v)
+    {
+        if (g_null_key && v == 0) return nullptr;
+        KeyCell *k = (KeyCell *)malloc(sizeof *k); k->value = v; k->id = next_id++; cells.insert(k); return k;
+    }
     ValCell *mkval() { ValCell *v = (ValCell *)malloc(sizeof *v); v->id = next_id++; v->tag = 0x11223344; cells.insert(v); return v; }
     void freecell(void *c, size_t sz)
     {
+        if (!c) return;         // the NULL key
         cells.erase(c);
         memset(c, 0xDD, sz);
         free(c);
@@ -107,7 +117,7 @@ void audit(Map &mp, int K, Obs *obs)
         LIB(end = cstl_map_iterator_end(&mp.m));
         bool isend = cstl_map_iterator_eq(&it, end);
         auto f = mp.model.find(key_class(v));
-        if (obs) obs->push_back(isend ? -1 : ((const KeyCell *)it.key)->value);
+        if (obs) obs->push_back(isend ? -1 : kval(it.key));
         CHECK(isend == (f == mp.model.end()), "C08.find.iff", "%s find(%d) %s but the reference %s", mp.tag, v,
               isend ? "yields end" : "yields an entry", f == mp.model.end() ? "has no such key" : "has the key");
         if (!isend) CHECK(it.key == f->second.k && it.val == f->second.v, "C08.find.stored",
@@ -127,7 +137,7 @@ void peek_rec(Map &mp, struct cstl_bintree_node *b, std::string &s, size_t &budg
     bool mine = mp.cells.count((void *)nr->key) != 0;
     if (!mine) { ok = false; return; }
     s += '(';
-    s += std::to_string(key_class(((const KeyCell *)nr->key)->value));
+    s += std::to_string(key_class(kval(nr->key)));
     s += nr->n.c == CSTL_RBTREE_COLOR_R ? 'r' : 'b';
     peek_rec(mp, b->l, s, budget, ok);
     peek_rec(mp, b->r, s, budget, ok);
@@ -166,7 +176,7 @@ void apply(Map &mp, CaseCtx &cx, int op, uint8_t a, uint8_t b, int K, size_t max
         int rc;
         LIB(rc = cstl_map_insert(&mp.m, k, val, op == INSERT ? &it : nullptr));
         bool failed = alloc_failures() != f0;
-        TRACE("%s %s key=%d(cell k%d) -> %d%s", mp.tag, OPN[op], v, k->id, rc, failed ? " [allocation failed]" : "");
+        TRACE("%s %s key=%d(cell k%d) -> %d%s", mp.tag, OPN[op], v, k ? k->id : -1, rc, failed ? " [allocation failed]" : "");
         if (obs) obs->push_back(rc);
         if (exists) {
             CNT("class.insert.existing");
@@ -202,11 +212,11 @@ void apply(Map &mp, CaseCtx &cx, int op, uint8_t a, uint8_t b, int K, size_t max
     case FIND: {
         KeyCell probe{v, -1};
         cstl_map_iterator_t it;
-        LIB(cstl_map_find(&mp.m, &probe, &it));
+        LIB(cstl_map_find(&mp.m, (g_null_key && v == 0 && (b & 1)) ? nullptr : &probe, &it));
         bool isend = cstl_map_iterator_eq(&it, end);
         auto f = mp.model.find(cls);
         TRACE("%s find %d -> %s", mp.tag, v, isend ? "end" : "entry");
-        if (obs) obs->push_back(isend ? -1 : ((const KeyCell *)it.key)->value);
+        if (obs) obs->push_back(isend ? -1 : kval(it.key));
         CHECK(isend == (f == mp.model.end()), "C08.find.iff", "%s find(%d) %s but the reference %s", mp.tag, v,
               isend ? "yields end" : "yields an entry", f == mp.model.end() ? "has no such key" : "has the key");
         if (!isend) CHECK(it.key == f->second.k && it.val == f->second.v, "C08.find.stored",
@@ -219,7 +229,7 @@ void apply(Map &mp, CaseCtx &cx, int op, uint8_t a, uint8_t b, int K, size_t max
         cstl_map_iterator_t it;
         memset(&it, 0x77, sizeof it);
         int rc;
-        LIB(rc = cstl_map_erase(&mp.m, &probe, op == ERASE ? &it : nullptr));
+        LIB(rc = cstl_map_erase(&mp.m, (g_null_key && v == 0 && (b & 1)) ? nullptr : &probe, op == ERASE ? &it : nullptr));
         auto f = mp.model.find(cls);
         TRACE("%s %s %d -> %d", mp.tag, OPN[op], v, rc);
         if (obs) obs->push_back(rc);
@@ -339,7 +349,7 @@ void vf_run(const uint8_t *data, size_t len)
     Cursor cur(data, len);
     int K = KEYS[cur.u8() % NKEYS];
     g_cmp_kind = cur.u8() % 5;
-    g_mod = 2 + cur.u8() % 5;
+    { uint8_t mb = cur.u8(); g_mod = 2 + (mb & 0x7f) % 5; g_null_key = (mb & 0x80) != 0; }
     size_t maxlive = MAXLIVE[cur.u8() % 8];
     int prof = cur.u8() % NPROFILES;
     bool c15 = g_prop == "C15", c16 = g_prop == "C16";
